@@ -250,11 +250,22 @@ pub open spec fn cbor_bytes(b: Seq<u8>) -> CBOR {
     CBOR(RefCounted::new(CBORCase::ByteString(ByteString { data: vec_of(b) })))
 }
 pub uninterp spec fn vec_of(b: Seq<u8>) -> Vec<u8>;
-// [A-vec-of] a Vec<u8> is determined by its content
+// [A-vec-of] every byte string of addressable length is the content of some Vec<u8>
 pub broadcast axiom fn axiom_vec_of(b: Seq<u8>)
+    requires b.len() <= usize::MAX
     ensures (#[trigger] vec_of(b))@ == b;
-pub broadcast axiom fn axiom_vec_ext(v: Vec<u8>)
-    ensures #[trigger] vec_of(v@) == v;
+// [A-vec-ext] equality of Vec<u8> / Vec<CBOR> / Vec<(CBOR, CBOR)> values is equality of their contents
+// (capacity and address are not observable): "identical" is taken up to Vec identity.
+pub broadcast axiom fn axiom_vec_u8_ext(a: Vec<u8>, b: Vec<u8>)
+    requires #[trigger] a@ == #[trigger] b@
+    ensures a == b;
+pub broadcast axiom fn axiom_vec_cbor_ext(a: Vec<CBOR>, b: Vec<CBOR>)
+    requires #[trigger] a@ == #[trigger] b@
+    ensures a == b;
+pub broadcast axiom fn axiom_vec_cbor_pair_ext(a: Vec<(CBOR, CBOR)>, b: Vec<(CBOR, CBOR)>)
+    requires #[trigger] a@ == #[trigger] b@
+    ensures a == b;
+pub broadcast group group_vec_ext { axiom_vec_of, axiom_vec_u8_ext, axiom_vec_cbor_ext, axiom_vec_cbor_pair_ext }
 pub open spec fn cbor_tagged(tag: u64, item: CBOR) -> CBOR {
     CBOR(RefCounted::new(CBORCase::Tagged(Tag { value: tag }, item)))
 }
@@ -378,30 +389,61 @@ pub assume_specification<T, F> [<[T]>::sort_by] (s: &mut [T], f: F)
         final(s)@.len() == old(s)@.len(),
         sorted_by_closure(final(s)@, f);
 
-// [A-iter-position]
-pub assume_specification<'a, T, P> [<std::slice::Iter<'a, T> as std::iter::Iterator>::position] (it: &mut std::slice::Iter<'a, T>, p: P) -> (r: Option<usize>)
-    where P: FnMut(&'a T) -> bool, std::slice::Iter<'a, T>: Sized
-    requires forall|a: &T| call_requires(p, (a,)),
+// Iterator::any / Iterator::all on a slice iterator: VERIFIED helpers (not assumptions); the generator
+// rewrites `X.iter().any(CL)` to `slice_any(X.as_slice(), CL)` (rule R-iter-any, logged), because the
+// installed vstd gives `any`/`all` no usable specification.
+pub fn slice_any<T, P: Fn(&T) -> bool>(s: &[T], p: P) -> (r: bool)
+    requires forall|x: &T| call_requires(p, (x,)),
     ensures
-        match r {
-            Some(i) => i < old(it).remaining().len() && call_ensures(p, (old(it).remaining()[i as int],), true)
-                && forall|j: int| 0 <= j < i ==> call_ensures(p, (#[trigger] old(it).remaining()[j],), false),
-            None => forall|j: int| 0 <= j < old(it).remaining().len() ==> call_ensures(p, (#[trigger] old(it).remaining()[j],), false),
-        };
-// [A-iter-any]
-pub assume_specification<'a, T, P> [<std::slice::Iter<'a, T> as std::iter::Iterator>::any] (it: &mut std::slice::Iter<'a, T>, p: P) -> (r: bool)
-    where P: FnMut(&'a T) -> bool, std::slice::Iter<'a, T>: Sized
-    requires forall|a: &T| call_requires(p, (a,)),
+        r ==> exists|j: int| 0 <= j < s@.len() && call_ensures(p, (&#[trigger] s@[j],), true),
+        !r ==> forall|j: int| 0 <= j < s@.len() ==> call_ensures(p, (&#[trigger] s@[j],), false),
+{
+    let mut i: usize = 0;
+    while i < s.len()
+        invariant i <= s@.len(), forall|x: &T| call_requires(p, (x,)),
+            forall|j: int| 0 <= j < i ==> call_ensures(p, (&#[trigger] s@[j],), false),
+        decreases s@.len() - i
+    {
+        if p(&s[i]) { return true; }
+        i += 1;
+    }
+    false
+}
+pub fn slice_position<T, P: Fn(&T) -> bool>(s: &[T], p: P) -> (r: Option<usize>)
+    requires forall|x: &T| call_requires(p, (x,)),
     ensures
-        r ==> exists|j: int| 0 <= j < old(it).remaining().len() && call_ensures(p, (#[trigger] old(it).remaining()[j],), true),
-        !r ==> forall|j: int| 0 <= j < old(it).remaining().len() ==> call_ensures(p, (#[trigger] old(it).remaining()[j],), false);
-// [A-iter-all]
-pub assume_specification<'a, T, P> [<std::slice::Iter<'a, T> as std::iter::Iterator>::all] (it: &mut std::slice::Iter<'a, T>, p: P) -> (r: bool)
-    where P: FnMut(&'a T) -> bool, std::slice::Iter<'a, T>: Sized
-    requires forall|a: &T| call_requires(p, (a,)),
+        r matches Some(i) ==> i < s@.len() && call_ensures(p, (&s@[i as int],), true)
+            && forall|j: int| 0 <= j < i ==> call_ensures(p, (&#[trigger] s@[j],), false),
+        r is None ==> forall|j: int| 0 <= j < s@.len() ==> call_ensures(p, (&#[trigger] s@[j],), false),
+{
+    let mut i: usize = 0;
+    while i < s.len()
+        invariant i <= s@.len(), forall|x: &T| call_requires(p, (x,)),
+            forall|j: int| 0 <= j < i ==> call_ensures(p, (&#[trigger] s@[j],), false),
+        decreases s@.len() - i
+    {
+        if p(&s[i]) { return Some(i); }
+        i += 1;
+    }
+    None
+}
+pub fn slice_all<T, P: Fn(&T) -> bool>(s: &[T], p: P) -> (r: bool)
+    requires forall|x: &T| call_requires(p, (x,)),
     ensures
-        r ==> forall|j: int| 0 <= j < old(it).remaining().len() ==> call_ensures(p, (#[trigger] old(it).remaining()[j],), true),
-        !r ==> exists|j: int| 0 <= j < old(it).remaining().len() && call_ensures(p, (#[trigger] old(it).remaining()[j],), false);
+        r ==> forall|j: int| 0 <= j < s@.len() ==> call_ensures(p, (&#[trigger] s@[j],), true),
+        !r ==> exists|j: int| 0 <= j < s@.len() && call_ensures(p, (&#[trigger] s@[j],), false),
+{
+    let mut i: usize = 0;
+    while i < s.len()
+        invariant i <= s@.len(), forall|x: &T| call_requires(p, (x,)),
+            forall|j: int| 0 <= j < i ==> call_ensures(p, (&#[trigger] s@[j],), true),
+        decreases s@.len() - i
+    {
+        if !p(&s[i]) { return false; }
+        i += 1;
+    }
+    true
+}
 
 // ============================================================================ dcbor tagged-codable traits
 // Hand-written mirror of dcbor's CBORTagged / CBORTaggedEncodable / CBORTaggedDecodable including their
